@@ -7,6 +7,7 @@ require (
 	github.com/go-chi/chi/v5 v5.1.0
 	github.com/gorilla/mux v1.8.1
 	github.com/luraproject/lura/v2 v2.0.0
+	github.com/valyala/fastrand v1.1.0
 	golang.org/x/text v0.23.0
 )
 
@@ -23,7 +24,6 @@ require (
 	github.com/pelletier/go-toml/v2 v2.2.3 // indirect
 	github.com/ugorji/go/codec v1.2.12 // indirect
 	github.com/urfave/negroni/v2 v2.0.2 // indirect
-	github.com/valyala/fastrand v1.1.0 // indirect
 	golang.org/x/crypto v0.36.0 // indirect
 	golang.org/x/net v0.38.0 // indirect
 	golang.org/x/sys v0.31.0 // indirect
